@@ -1,7 +1,8 @@
 (* C15 — property theorems only. Each is closed by [exact] of a lemma from Proofs.v and followed
    by Print Assumptions. *)
 From Coq Require Import List NArith ZArith Bool Ascii.
-From V Require Import C15.Model C15.Proofs.
+From V Require Import C15.Model C15.Proofs C15.Buffer.
+From Coq Require Import Permutation.
 Import ListNotations.
 Open Scope N_scope.
 
@@ -74,6 +75,22 @@ Theorem C15_snapshot_isolated : forall st h o,
 Proof. exact spec_snapshot_isolated. Qed.
 Print Assumptions C15_snapshot_isolated.
 
+(* ---------- db.BufferBatch, the map of pending point writes in front of an indexed batch ---------- *)
+(* Get through the buffer answers what a bare indexed batch answers after the same Put/Delete sequence *)
+Theorem C15_bufferbatch_get_transparent : forall (ws : list pw) (txn : store) (k : key),
+  sorted txn ->
+  bb_get (bb_writes ws) txn k = s_get (replay (map pw_wop ws) txn) k.
+Proof. exact bb_get_writes. Qed.
+Print Assumptions C15_bufferbatch_get_transparent.
+
+(* Flush ranges over a Go map, i.e. forwards the entries in ANY order: the wrapped batch afterwards answers
+   exactly what a bare indexed batch answers after the same Put/Delete sequence *)
+Theorem C15_bufferbatch_flush_any_order : forall (ws : list pw) (order : bbuf) (txn : store) (k : key),
+  sorted txn -> Permutation order (bb_writes ws) ->
+  s_get (bb_flush order txn) k = s_get (replay (map pw_wop ws) txn) k.
+Proof. exact bb_transparent. Qed.
+Print Assumptions C15_bufferbatch_flush_any_order.
+
 (* ---------- the statement is not vacuous ---------- *)
 Definition B (n : N) : byte := ascii_of_N n.
 
@@ -98,3 +115,12 @@ Example strict_covers_batch_ranges :
      Helper true [WPut [B 8] []; WDelRange [] [B 255]] (Some [B 8]) false; Has [B 5]] = true.
 Proof. vm_compute. reflexivity. Qed.
 
+
+(* BufferBatch: overwrite, delete of a key present below, delete then re-put; flushed in reverse map order *)
+Example bufferbatch_instance :
+  let ws := [PPut [B 1] [B 7]; PDel [B 2]; PPut [B 1] [B 8]; PDel [B 3]; PPut [B 3] []] in
+  let txn := [([B 2], [B 9]); ([B 4], [B 4])] in
+  map (s_get (bb_flush (rev (bb_writes ws)) txn)) [[B 1]; [B 2]; [B 3]; [B 4]]
+  = [Some [B 8]; None; Some []; Some [B 4]]
+  /\ map (bb_get (bb_writes ws) txn) [[B 1]; [B 2]; [B 3]; [B 4]] = [Some [B 8]; None; Some []; Some [B 4]].
+Proof. vm_compute. split; reflexivity. Qed.
